@@ -131,3 +131,121 @@ def c03_2(I, shape):
                                "ecdsa_secp256r1_sha256", "sha1"),
                 "signature-scheme-was-offered",
                 detail=lambda: dict(sig_scheme=sig_scheme))
+
+
+# ---------------------------------------------------------------------------
+# C03.3 / C04.5  client: accepts only what it offered; downgrade sentinel
+# ---------------------------------------------------------------------------
+from models.hello import client_conn, run_client_hello, sh_bytes
+import tlslite.extensions as _X
+from tlslite.constants import (TLS_1_1_DOWNGRADE_SENTINEL,
+                               TLS_1_2_DOWNGRADE_SENTINEL)
+
+CLI_FUNCS = ["tlslite.tlsconnection:TLSConnection._handshakeClientAsyncHelper",
+             "tlslite.tlsconnection:TLSConnection._clientSendClientHello",
+             "tlslite.tlsconnection:TLSConnection._clientGetServerHello",
+             "tlslite.tlsrecordlayer:TLSRecordLayer._getMsg",
+             "tlslite.messages:ServerHello.parse",
+             "tlslite.constants:CipherSuite.filterForVersion"]
+
+
+def _cli_settings():
+    fam = {}
+    for lo, hi in (((3, 1), (3, 4)), ((3, 1), (3, 3)), ((3, 1), (3, 1)),
+                   ((3, 3), (3, 3)), ((3, 3), (3, 4)), ((3, 4), (3, 4)),
+                   ((3, 1), (3, 2))):
+        s = HandshakeSettings()
+        s.minVersion, s.maxVersion = lo, hi
+        s.keyShares = ["secp256r1"]
+        fam["v%d%d-%d%d" % (lo + hi)] = s
+    s = HandshakeSettings()
+    s.requireExtendedMasterSecret = True
+    s.keyShares = ["secp256r1"]
+    s.maxVersion = (3, 3)
+    fam["require-ems"] = s
+    return fam
+
+
+def _shapes_c03_3(tier):
+    out = []
+    for name in sorted(_cli_settings()):
+        for sv in (True, False):
+            out.append(dict(settings=name, supported_versions=sv))
+    return out
+
+
+@obligation("C03.3", _shapes_c03_3, functions=CLI_FUNCS,
+            assumes=HELLO_ASSUMES + [
+                "the ClientHello is built natively by the real "
+                "_clientSendClientHello for each settings family member "
+                "(anonymous + certificate suites); ServerHello: symbolic "
+                "legacy minor version, optional supported_versions with "
+                "symbolic minor, symbolic cipher suite, compression byte, "
+                "last 8 bytes of the random, EMS extension presence; "
+                "session_id echoed or not (symbolic choice)"],
+            patches=lambda s: (hello_proxies(), hello_stubs()),
+            max_paths=20000, timeout=(400, 1500), also=("C04",))
+def c03_3(I, shape):
+    """the client goes on only with a version inside its settings, a suite
+    it offered that the version defines, null compression, and never past a
+    downgrade sentinel"""
+    settings = _cli_settings()[shape["settings"]]
+    vsettings = settings.validate()
+    minor = I.int_range(0, 4, "sh_minor")
+    suite = I.uint(16, "suite")
+    comp = I.byte("compression")
+    tail = I.bytes(8, "random_tail")
+    echo = I.pick([True, False], "echo_session_id")
+    ems = I.pick([True, False], "ems")
+    sv_minor = I.int_range(0, 5, "sv_minor") if shape["supported_versions"] \
+        else None
+
+    def server_wire(ch):
+        exts = []
+        if sv_minor is not None:
+            exts.append(_X.SrvSupportedVersionsExtension().create(
+                (3, sv_minor)))
+            exts.append(_X.ServerKeyShareExtension().create(
+                _X.KeyShareEntry().create(GroupName.secp256r1,
+                                          bytearray(b"\x04" + b"\x02" * 64))))
+        if ems:
+            exts.append(raw_ext(ExtensionType.extended_master_secret, []))
+        sid = ch.session_id if echo else bytearray(b"other-session-id")
+        rnd = newbuf([9] * 24 + list(tail))
+        return record(ContentType.handshake,
+                      sh_bytes((3, minor), rnd, sid, suite, exts or None,
+                               comp))
+    conn = client_conn()
+    out = run_client_hello(conn, settings, server_wire)
+    ch = out["clientHello"]
+    if out["kind"] in ("alert", "remote-alert"):
+        I.cover(out["kind"])
+        return
+    # the handshake goes on
+    version = conn.version
+    I.check(vsettings.minVersion <= version <= vsettings.maxVersion,
+            "negotiated-version-inside-client-settings",
+            detail=lambda: dict(version=version,
+                                min=vsettings.minVersion,
+                                max=vsettings.maxVersion))
+    k = int(suite)
+    I.check(k in ch.cipher_suites, "suite-was-offered")
+    I.check(CipherSuite.filterForVersion([k], version, version) == [k],
+            "suite-defined-for-the-version")
+    I.check(comp == 0, "null-compression")
+    if version > (3, 3):
+        I.check(echo, "tls13-session-id-echoed")
+        I.check(out["kind"] == "tls13", "tls13-flow-entered")
+    else:
+        I.check(out["kind"] == "tls12-continues", "tls12-flow-entered")
+    if shape["settings"] == "require-ems":
+        I.check(ems, "ems-required-and-present")
+    # RFC 8446 4.1.3 downgrade protection
+    t = list(tail)
+    is12 = seq_eq(t, list(TLS_1_2_DOWNGRADE_SENTINEL))
+    is11 = seq_eq(t, list(TLS_1_1_DOWNGRADE_SENTINEL))
+    if vsettings.maxVersion > (3, 3) and version <= (3, 3):
+        I.check(NOT(OR(is12, is11)),
+                "tls13-client-rejects-downgrade-sentinels")
+    if vsettings.maxVersion == (3, 3) and version < (3, 3):
+        I.check(NOT(is11), "tls12-client-rejects-tls11-sentinel")
